@@ -207,4 +207,376 @@ theorem c23_chunking_irrelevant (sv : Nat) (fs : List Frame) (c1 c2 : List Bytes
 example : (feed 6 [[0x70, 0x68], [16, 0, 0, 0], [0, 0, 0, 0, 9, 0, 0, 0, 0, 0, 0, 0, 7]]).out =
     [.ping {}, .recvack { dup := true } { messageID := 9, messageSeq := 7 }] := by decide
 
+/-! ## arbitrary bytes, arbitrary chunkings -/
+
+/-- a closed session ignores every further chunk -/
+theorem foldl_feedChunk_closed (sv : Nat) (chunks : List Bytes) (st : Inbound) (h : st.closed = true) :
+    chunks.foldl (feedChunk sv) st = st := by
+  induction chunks with
+  | nil => rfl
+  | cons c cs ih => simp [List.foldl_cons, feedChunk, h, ih]
+
+/-- **After a close nothing more is dispatched**: for arbitrary bytes and any chunking, once
+    the inbound path has closed the session (protocol error), every later chunk leaves the
+    dispatched frames, the buffer and the closed flag untouched. -/
+theorem c23_no_dispatch_after_close (sv : Nat) (before after : List Bytes)
+    (h : (feed sv before).closed = true) : feed sv (before ++ after) = feed sv before := by
+  unfold feed at *
+  rw [List.foldl_append]
+  exact foldl_feedChunk_closed sv after _ h
+
+theorem drain_buf_le (sv : Nat) : ∀ (fuel : Nat) (st : Inbound), (drain sv fuel st).buf.length ≤ st.buf.length := by
+  intro fuel
+  induction fuel with
+  | zero => intro st; simp [drain]
+  | succ k ih =>
+    intro st
+    simp only [drain]
+    split
+    · simp
+    · simp
+    · rename_i fs c _
+      split
+      · simp
+      · have := ih { st with buf := st.buf.drop c, out := st.out ++ fs }
+        simp only [List.length_drop] at this
+        omega
+
+theorem feedChunk_buf_le (sv : Nat) (st : Inbound) (c : Bytes) :
+    (feedChunk sv st c).buf.length ≤ st.buf.length + c.length := by
+  unfold feedChunk
+  split
+  · omega
+  · have := drain_buf_le sv ((st.buf ++ c).length + 1) { st with buf := st.buf ++ c }
+    simpa using this
+
+/-- **Residual-buffer bound**: for arbitrary bytes and any chunking the gateway never buffers
+    more than it was given (on top of what was already buffered). -/
+theorem c23_residual_buffer_bound (sv : Nat) (chunks : List Bytes) :
+    (feed sv chunks).buf.length ≤ chunks.flatten.length := by
+  suffices h : ∀ (cs : List Bytes) (st : Inbound),
+      (cs.foldl (feedChunk sv) st).buf.length ≤ st.buf.length + cs.flatten.length by
+    simpa [feed] using h chunks {}
+  intro cs
+  induction cs with
+  | nil => intro st; simp
+  | cons c cs ih =>
+    intro st
+    have h1 := feedChunk_buf_le sv st c
+    have h2 := ih (feedChunk sv st c)
+    simp only [List.foldl_cons, List.flatten_cons, List.length_append]
+    omega
+
+example : (feed 6 [[0x68, 16, 0], [0, 0]]).buf.length = 5 ∧ (feed 6 [[0x13, 0xFF, 0xFF, 0xFF, 0xFF], [0x70]]).closed = true ∧
+    (feed 6 [[0x13, 0xFF, 0xFF, 0xFF, 0xFF], [0x70]]).out = [] := by decide
+
+/-! ## chunking of arbitrary byte streams -/
+
+theorem decLenF_append : ∀ (k m off acc : Nat) (d x : Bytes) (r : Nat × Nat),
+    decLenF k m off acc d = some r → decLenF k m off acc (d ++ x) = some r := by
+  intro k
+  induction k with
+  | zero => intro m off acc d x r h; simpa [decLenF] using h
+  | succ k ih =>
+    intro m off acc d x r h
+    cases d with
+    | nil => simp [decLenF] at h
+    | cons a t =>
+      simp only [decLenF, List.cons_append] at h ⊢
+      split
+      · rename_i hc; simpa [hc] using h
+      · rename_i hc; simp only [hc, if_false] at h; exact ih _ _ _ t x r h
+
+theorem decodeHeader_append (b0 : UInt8) (rest x : Bytes) (r : Nat × Flags × Nat × Nat)
+    (h : decodeHeader b0 rest = some r) : decodeHeader b0 (rest ++ x) = some r := by
+  simp only [decodeHeader] at h ⊢
+  by_cases hc : typeOfByte b0 ≠ 7 ∧ typeOfByte b0 ≠ 8
+  · rw [if_pos hc] at h ⊢
+    cases hl : decLen rest with
+    | none => simp [hl] at h
+    | some p =>
+      have h2 : decLen (rest ++ x) = some p := decLenF_append 4 0 0 0 rest x p hl
+      rw [hl] at h; rw [h2]; exact h
+  · rw [if_neg hc] at h ⊢; exact h
+
+/-- a frame decoded from a prefix is the frame decoded from any extension -/
+theorem decodeFrame_mono (v : Nat) (d x : Bytes) (f : Frame) (n : Nat)
+    (h : decodeFrame v d = .ok f n) : decodeFrame v (d ++ x) = .ok f n := by
+  cases d with
+  | nil => simp [decodeFrame] at h
+  | cons b0 rest =>
+    simp only [decodeFrame, List.cons_append] at h ⊢
+    cases hh : decodeHeader b0 rest with
+    | none => simp [hh] at h
+    | some r =>
+      obtain ⟨ft, fl, rl, rll⟩ := r
+      have hh' := decodeHeader_append b0 rest x _ hh
+      simp only [hh, hh'] at h ⊢
+      by_cases c0 : ft = 0
+      · rw [if_pos c0] at h; cases h
+      · rw [if_neg c0] at h ⊢
+        by_cases c7 : ft = 7
+        · rw [if_pos c7] at h ⊢; exact h
+        · rw [if_neg c7] at h ⊢
+          by_cases c8 : ft = 8
+          · rw [if_pos c8] at h ⊢; exact h
+          · rw [if_neg c8] at h ⊢
+            by_cases cm : rl > maxRemainingLength
+            · rw [if_pos cm] at h; cases h
+            · rw [if_neg cm] at h ⊢
+              by_cases cl : (b0 :: rest).length < rl + 1 + rll
+              · rw [if_pos cl] at h; cases h
+              · have cl' : ¬ (b0 :: (rest ++ x)).length < rl + 1 + rll := by
+                  simp only [List.length_cons, List.length_append] at cl ⊢; omega
+                have hb : (List.drop (1 + rll) (b0 :: (rest ++ x))).take rl =
+                    (List.drop (1 + rll) (b0 :: rest)).take rl := by
+                  rw [← List.cons_append, List.drop_append_of_le_length (by simp only [List.length_cons] at cl ⊢; omega)]
+                  rw [List.take_append_of_le_length (by simp only [List.length_drop, List.length_cons] at cl ⊢; omega)]
+                rw [if_neg cl] at h
+                rw [if_neg cl', hb]
+                exact h
+
+
+/-- fuel beyond the input length is irrelevant -/
+theorem decodeLoop_fuel (v : Nat) : ∀ (f1 f2 : Nat) (rem : Bytes), rem.length ≤ f1 → rem.length ≤ f2 →
+    decodeLoop v f1 rem = decodeLoop v f2 rem := by
+  intro f1
+  induction f1 with
+  | zero =>
+    intro f2 rem h1 _
+    have : rem = [] := List.eq_nil_of_length_eq_zero (by omega)
+    subst this
+    cases f2 <;> simp [decodeLoop]
+  | succ k ih =>
+    intro f2 rem h1 h2
+    cases rem with
+    | nil => cases f2 <;> simp [decodeLoop]
+    | cons b r =>
+      obtain ⟨k2, rfl⟩ : ∃ k2, f2 = k2 + 1 := ⟨f2 - 1, by simp only [List.length_cons] at h2; omega⟩
+      simp only [decodeLoop]
+      cases hd : decodeFrame v (b :: r) with
+      | ok f n =>
+        simp only
+        by_cases hn : n = 0
+        · simp [hn]
+        · simp only [hn, if_false]
+          have hb := c22_decode_bounds v _ _ _ hd
+          rw [ih k2 ((b :: r).drop n) (by simp only [List.length_drop, List.length_cons] at h1 ⊢; omega)
+            (by simp only [List.length_drop, List.length_cons] at h2 ⊢; omega)]
+      | _ => rfl
+
+/-- the adapter loop with its canonical fuel -/
+def loopC (v : Nat) (S : Bytes) : AllRes := decodeLoop v S.length S
+
+theorem adapterDecode_eq (sv : Nat) (S : Bytes) : adapterDecode sv S = loopC (effVersion sv) S := by
+  unfold adapterDecode loopC
+  cases S with
+  | nil => simp [decodeLoop]
+  | cons b r => simp
+
+def glue (fs : List Frame) (c : Nat) : AllRes → AllRes
+  | .ok fs2 c2 => .ok (fs ++ fs2) (c + c2)
+  | r => r
+
+theorem glue_nil (r : AllRes) : glue [] 0 r = r := by cases r <;> simp [glue]
+
+/-- the loop on an extended input first reproduces the frames of the shorter input and then
+    continues on what that run had left, followed by the extension -/
+theorem loop_extend (v : Nat) : ∀ (n : Nat) (S x : Bytes) (fs : List Frame) (c : Nat), S.length ≤ n →
+    loopC v S = .ok fs c → loopC v (S ++ x) = glue fs c (loopC v (S.drop c ++ x)) := by
+  intro n
+  induction n with
+  | zero =>
+    intro S x fs c hl h
+    have : S = [] := List.eq_nil_of_length_eq_zero (by omega)
+    subst this
+    simp only [loopC, decodeLoop, List.length_nil, AllRes.ok.injEq] at h
+    obtain ⟨rfl, rfl⟩ := h
+    simp [glue_nil]
+  | succ k ih =>
+    intro S x fs c hl h
+    cases S with
+    | nil =>
+      simp only [loopC, decodeLoop, List.length_nil, AllRes.ok.injEq] at h
+      obtain ⟨rfl, rfl⟩ := h
+      simp [glue_nil]
+    | cons b r =>
+      simp only [loopC, List.length_cons, decodeLoop] at h
+      cases hd : decodeFrame v (b :: r) with
+      | panic => simp [hd] at h
+      | err => simp [hd] at h
+      | need =>
+        simp only [hd, AllRes.ok.injEq] at h
+        obtain ⟨rfl, rfl⟩ := h
+        simp [glue_nil]
+      | ok f m =>
+        simp only [hd] at h
+        by_cases hm : m = 0
+        · simp only [hm, if_true, AllRes.ok.injEq] at h
+          obtain ⟨rfl, rfl⟩ := h
+          simp [glue_nil]
+        · simp only [hm, if_false] at h
+          have hb := c22_decode_bounds v _ _ _ hd
+          have hmono := decodeFrame_mono v (b :: r) x f m hd
+          -- the inner run on what follows the first frame
+          have hin : decodeLoop v r.length ((b :: r).drop m) = loopC v ((b :: r).drop m) := by
+            unfold loopC
+            exact decodeLoop_fuel v _ _ _ (by simp only [List.length_drop, List.length_cons]; omega) (Nat.le_refl _)
+          rw [hin] at h
+          cases hl2 : loopC v ((b :: r).drop m) with
+          | panic => simp [hl2] at h
+          | err => simp [hl2] at h
+          | ok fs' c' =>
+            simp only [hl2, AllRes.ok.injEq] at h
+            obtain ⟨rfl, rfl⟩ := h
+            have hih := ih ((b :: r).drop m) x fs' c'
+              (by simp only [List.length_drop, List.length_cons] at hl ⊢; omega) hl2
+            -- unfold one step of the extended run
+            have hmono' : decodeFrame v (b :: (r ++ x)) = .ok f m := by simpa using hmono
+            have hfuel := decodeLoop_fuel v (r ++ x).length ((b :: (r ++ x)).drop m).length ((b :: (r ++ x)).drop m)
+              (by simp only [List.length_drop, List.length_append, List.length_cons]; omega) (Nat.le_refl _)
+            have hstep : loopC v ((b :: r) ++ x) = glue [f] m (loopC v (((b :: r) ++ x).drop m)) := by
+              unfold loopC
+              simp only [List.cons_append, List.length_cons, decodeLoop, hmono', hm, if_false, hfuel]
+              cases decodeLoop v ((b :: (r ++ x)).drop m).length ((b :: (r ++ x)).drop m) <;> simp [glue]
+            rw [hstep, List.drop_append_of_le_length (by omega), hih]
+            have hd2 : ((b :: r).drop m).drop c' = (b :: r).drop (m + c') := by rw [List.drop_drop]
+            rw [hd2]
+            cases loopC v ((b :: r).drop (m + c') ++ x) <;> simp [glue, Nat.add_assoc]
+
+
+theorem loop_stall (v : Nat) (S : Bytes) (fs : List Frame) (c : Nat) (h : loopC v S = .ok fs c) :
+    loopC v (S.drop c) = .ok [] 0 := by
+  have := loop_extend v S.length S [] fs c (Nat.le_refl _) h
+  simp only [List.append_nil] at this
+  rw [h] at this
+  cases hr : loopC v (S.drop c) with
+  | ok fs2 c2 =>
+    rw [hr] at this
+    simp only [glue, AllRes.ok.injEq] at this
+    obtain ⟨h1, h2⟩ := this
+    have : fs2 = [] := by simpa using h1
+    subst this
+    have : c2 = 0 := by omega
+    subst this
+    rfl
+  | err => rw [hr] at this; simp [glue] at this
+  | panic => rw [hr] at this; simp [glue] at this
+
+theorem drain_ok (sv : Nat) (st : Inbound) (fuel : Nat) (fs : List Frame) (c : Nat)
+    (h : loopC (effVersion sv) st.buf = .ok fs c) (hf : 2 ≤ fuel) :
+    drain sv fuel st = { st with buf := st.buf.drop c, out := st.out ++ fs } := by
+  obtain ⟨k, rfl⟩ : ∃ k, fuel = k + 2 := ⟨fuel - 2, by omega⟩
+  have hd : adapterDecode sv st.buf = .ok fs c := by rw [adapterDecode_eq]; exact h
+  simp only [drain, hd]
+  by_cases hc : c = 0
+  · subst hc
+    have : fs = [] := ((c23_total sv st.buf).2 fs 0 hd).2.2.1 rfl
+    subst this
+    cases st; simp
+  · rw [if_neg hc]
+    have hs := loop_stall _ _ _ _ h
+    have hd2 : adapterDecode sv (st.buf.drop c) = .ok [] 0 := by rw [adapterDecode_eq]; exact hs
+    simp only [hd2, if_true]
+
+/-- the state after any chunking of any byte stream that does not end closed -/
+theorem feed_general (sv : Nat) : ∀ (chunks : List Bytes) (st : Inbound),
+    st.closed = false → loopC (effVersion sv) st.buf = .ok [] 0 →
+    (chunks.foldl (feedChunk sv) st).closed = false →
+    ∃ fs c, loopC (effVersion sv) (st.buf ++ chunks.flatten) = .ok fs c ∧
+      chunks.foldl (feedChunk sv) st =
+        { st with buf := (st.buf ++ chunks.flatten).drop c, out := st.out ++ fs } := by
+  intro chunks
+  induction chunks with
+  | nil =>
+    intro st _ hst _
+    refine ⟨[], 0, by simpa using hst, ?_⟩
+    cases st; simp
+  | cons ch cs ih =>
+    intro st hcl hst hfin
+    simp only [List.foldl_cons] at hfin ⊢
+    have hfc : feedChunk sv st ch = drain sv ((st.buf ++ ch).length + 1) { st with buf := st.buf ++ ch } := by
+      simp [feedChunk, hcl]
+    cases hl : loopC (effVersion sv) (st.buf ++ ch) with
+    | ok fs1 c1 =>
+      by_cases he : st.buf ++ ch = []
+      · -- nothing buffered, empty chunk
+        have hb : st.buf = [] := (List.append_eq_nil_iff.mp he).1
+        have hc : ch = [] := (List.append_eq_nil_iff.mp he).2
+        have h1 : feedChunk sv st ch = st := by
+          rw [hfc, he]
+          simp only [List.length_nil, drain]
+          have : adapterDecode sv ({ st with buf := [] } : Inbound).buf = .ok [] 0 := by simp [adapterDecode]
+          simp only [this, if_true]
+          cases st; simp_all
+        rw [h1] at hfin ⊢
+        obtain ⟨fs, c, e1, e2⟩ := ih st hcl hst hfin
+        exact ⟨fs, c, by simpa [hc] using e1, by simpa [hc] using e2⟩
+      · have hlen : 2 ≤ (st.buf ++ ch).length + 1 := by
+          have : 0 < (st.buf ++ ch).length := List.length_pos_iff.mpr he
+          omega
+        have h1 : feedChunk sv st ch = { st with buf := (st.buf ++ ch).drop c1, out := st.out ++ fs1 } := by
+          rw [hfc, drain_ok sv _ _ fs1 c1 hl hlen]
+        rw [h1] at hfin ⊢
+        have hbound : c1 ≤ (st.buf ++ ch).length := by
+          have := (c23_total sv (st.buf ++ ch)).2 fs1 c1 (by rw [adapterDecode_eq]; exact hl)
+          exact this.1
+        obtain ⟨fs2, c2, e1, e2⟩ := ih { st with buf := (st.buf ++ ch).drop c1, out := st.out ++ fs1 } hcl
+          (loop_stall _ _ _ _ hl) hfin
+        refine ⟨fs1 ++ fs2, c1 + c2, ?_, ?_⟩
+        · have := loop_extend (effVersion sv) _ (st.buf ++ ch) cs.flatten fs1 c1 (Nat.le_refl _) hl
+          simp only at e1
+          rw [e1] at this
+          simpa [glue, List.append_assoc] using this
+        · rw [e2]
+          simp only [List.flatten_cons, List.append_assoc]
+          congr 1
+          rw [← List.append_assoc, ← List.drop_drop, List.drop_append_of_le_length hbound]
+    | err =>
+      exfalso
+      have h1 : (feedChunk sv st ch).closed = true := by
+        rw [hfc]
+        have : adapterDecode sv (st.buf ++ ch) = .err := by rw [adapterDecode_eq]; exact hl
+        simp [drain, this]
+      rw [foldl_feedChunk_closed sv cs _ h1, h1] at hfin
+      cases hfin
+    | panic =>
+      exfalso
+      have := (c23_total sv (st.buf ++ ch)).1
+      rw [adapterDecode_eq] at this
+      exact this hl
+
+/-- **Chunking is irrelevant — arbitrary bytes.**  Take ANY byte stream and ANY way of cutting
+    it into chunks (any number of cut points, empty chunks allowed).  If the chunked
+    delivery does not end in a closed session, the gateway ends in exactly the state of
+    the single-chunk delivery: same frames dispatched in the same order, same residual
+    buffer. -/
+theorem c23_chunking_irrelevant_any (sv : Nat) (chunks : List Bytes)
+    (h : (feed sv chunks).closed = false) : feed sv chunks = feed sv [chunks.flatten] := by
+  have hinit : loopC (effVersion sv) ({} : Inbound).buf = .ok [] 0 := by simp [loopC, decodeLoop]
+  obtain ⟨fs, c, e1, e2⟩ := feed_general sv chunks {} rfl hinit h
+  simp only [List.nil_append] at e1 e2
+  -- the single-chunk run reaches the same state
+  have hsingle : (feed sv [chunks.flatten]).closed = false := by
+    simp only [feed, List.foldl_cons, List.foldl_nil, feedChunk]
+    by_cases he : chunks.flatten = []
+    · simp [he, drain, adapterDecode]
+    · have hlen : 2 ≤ (([] : Bytes) ++ chunks.flatten).length + 1 := by
+        have : 0 < chunks.flatten.length := List.length_pos_iff.mpr he
+        simp only [List.nil_append]; omega
+      simp only [Bool.false_eq_true, if_false]
+      rw [drain_ok sv _ _ fs c (by simpa using e1) hlen]
+  obtain ⟨fs', c', e1', e2'⟩ := feed_general sv [chunks.flatten] {} rfl hinit hsingle
+  simp only [List.nil_append, List.flatten_cons, List.flatten_nil, List.append_nil] at e1' e2'
+  rw [e1] at e1'
+  simp only [AllRes.ok.injEq] at e1'
+  obtain ⟨rfl, rfl⟩ := e1'
+  simp only [feed]
+  rw [e2, e2']
+
+/-- non-vacuity: a stream that is NOT a sequence of valid frames (a PING, then a type-0 byte the
+    decoder waits on forever) — three chunks and one chunk end in the same, non-closed state -/
+example : (feed 3 [[0x70], [0x05], [0x80]]).closed = false ∧
+    feed 3 [[0x70], [0x05], [0x80]] = feed 3 [[0x70, 0x05, 0x80]] := by decide
+
 end WK.C23
